@@ -9,6 +9,9 @@ CLAIMED = {
     'C11': dict(design='DESIGN.md §3 C11', technique='deterministic simulation with fault injection: seeded add/read histories against MemoryStore and FileSystemStore on a simulated disk (readdir order, EIO/ENOSPC/EACCES, short/torn writes, process crash + restart), list-model oracle, ddmin replay',
                 text='Seeded search over add histories in every documented input form, reads after every add, save/load and restarts, compared op by op with a plain-list model; a separate faulting batch injects I/O errors, torn writes and crashes inside adds and reads and checks that acknowledged versions are never lost, altered or answered wrongly.',
                 note='Trusts: tmpfs semantics, own timestamp parser and JSON normaliser; completed write()s survive a process crash (no power-loss model); acceptance policy of add() is not judged (a raising add is resolved by observation).'),
+    'C12': dict(design='DESIGN.md §3 C12', technique='deterministic simulation: seeded populations on MemoryStore + FileSystemStore (simulated disk, readdir order) queried through three filter delivery paths; independent filter evaluator + model-free conjunction/monotonicity laws; ddmin replay',
+                text='Seeded search over populations and filter sets (all 8 operators, 17 property paths incl. dotted paths, type/id optimiser mixes, hits and near misses), each delivered as query argument, attached to the source, or attached to a composite and passed down, compared with an independent evaluator over the list model; plus model-free laws.',
+                note='Trusts: own filter evaluator for the documented semantics; filters are generated only inside the documented semantics (like-typed ordering, != on scalars only, contains/in where element-equality and substring coincide); dict-kept objects only meet canonically spelled ms timestamps.'),
 }
 
 NA = {
